@@ -62,6 +62,10 @@ impl MarkdownEventsReader {
                     self.end_tag(tag, range);
                 }
                 Text(text) => {
+                    if !self.metadata_block && self.blocks_stack.is_empty() {
+                        // text outside any block we keep: the indentation of a raw HTML block
+                        continue;
+                    }
                     if !self.metadata_block {
                         match self.top_block() {
                             DocumentBlock::CodeBlock(code_block) => {
